@@ -145,6 +145,10 @@ func params(rng *rand.Rand, small bool) (k, n, e, off int) {
 			k, n, e = 4+rng.Intn(4), 12+rng.Intn(30), rng.Intn(4)
 		}
 		off = e + rng.Intn(6)
+		if !small && rng.Intn(4) == 0 {
+			// a tube wider than the match window, as Optimise chooses for short seeds (window 25, offset 36)
+			off = n + rng.Intn(12)
+		}
 		if off < 1 {
 			off = 1
 		}
@@ -205,9 +209,14 @@ func Planted(w *vt.W, rng *rand.Rand, cases, maxLen int) {
 	for i := 0; i < cases; i++ {
 		k, n, e, off := params(rng, false)
 		lt, lq := n+20+rng.Intn(maxLen-n-19), n+20+rng.Intn(maxLen-n-19)
+		short := off > n && rng.Intn(2) == 0
+		if short {
+			// a query about one tube wide: the ticker retires nothing, or just the first tube, before the final flush
+			lq = off + e + 1 + rng.Intn(k+1)
+		}
 		T := randSeq(rng, lt, 4)
 		Q := randSeq(rng, lq, 4)
-		self := rng.Intn(5) == 0
+		self := rng.Intn(5) == 0 && !short
 		if self {
 			// a repeat inside one sequence
 			Q = T
@@ -221,6 +230,11 @@ func Planted(w *vt.W, rng *rand.Rand, cases, maxLen int) {
 			for r := 0; r < 1+rng.Intn(3); r++ {
 				ln := n + rng.Intn(25)
 				if ln > lt || ln > lq {
+					continue
+				}
+				if short && r == 0 && rng.Intn(2) == 0 {
+					// the target's tail against the query's head: the match lies in the first tube
+					copy(Q[0:n], T[len(T)-n:])
 					continue
 				}
 				plant(rng, T, Q, ln, e)
